@@ -96,9 +96,31 @@ def main():
   for k in range(nstateful):
     m, shapes = synth.stateful_model(args.seed * 31 + k, second_fc=bool(k % 2))
     stateful.append((m, shapes))
-  while (len(obs) < ncase and tried < ncase * 6) or stateful:
+  # 16-bit static quantisation of a FULLY_CONNECTED / TRANSPOSE_CONV with a tiny output channel and an ordinary bias: the int64 bias
+  # code of that channel is beyond the int32 range, and the validator has to dequantize it like every other tensor
+  from harness import numeric
+  SRQ16, NOQM = {"m": "SRQ", "a": "a16", "w": "w8c"}, {"m": "NOQ", "a": "-", "w": "-"}
+  big64 = []
+  for k in range(6 if args.tier == "quick" else 40):
+    kind = ("FC", "TCONV")[k % 2]
+    sub = ({"ops": [{"kind": "FC", "ins": [0, 1, 2], "outs": [3]}], "trole": ["act", "w", "b", "act"], "gins": [0], "gouts": [3]} if kind == "FC" else
+           {"ops": [{"kind": "TCONV", "ins": [1, 2, 0, 3], "outs": [4]}], "trole": ["act", "aux", "w", "b", "act"], "gins": [0], "gouts": [4]})
+    big64.append({"subs": [sub], "mode": [[SRQ16]], "inmode": (NOQM, SRQ16)[k // 2 % 2], "outmode": NOQM, "big64": True})
+  while (len(obs) < ncase and tried < ncase * 6) or stateful or big64:
     tried += 1
-    if len(obs) >= ncase or tried >= ncase * 6 or (stateful and tried % 12 == 0):
+    if big64 and (tried % 10 == 5 or len(obs) >= ncase or tried >= ncase * 6) and not (stateful and tried % 12 == 0):
+      scn = big64.pop()
+      try:
+        model, info = synth.build(scn, args.seed + tried, const_fn=numeric.tinyw_const(np.random.default_rng(args.seed + tried)))
+        impl = pipeline.run_impl(scn, seed=args.seed + tried, model=model, info=info, stats=numeric.small_stats(scn))
+      except synth.Unrealisable:
+        continue
+      if impl["outcome"] != "done":
+        chk.note("16-bit tiny-channel scenario not quantized: %s" % impl["why"])
+        continue
+      qmodel = impl["out_bytes"]
+      nsamples = 2
+    elif len(obs) >= ncase or tried >= ncase * 6 or (stateful and tried % 12 == 0):
       model, shapes = stateful.pop()
       from ai_edge_quantizer import recipe as _recipe
       scn, info = {"stateful": True}, {"codes": [["FULLY_CONNECTED", "RNN"]]}
@@ -203,7 +225,7 @@ def main():
       "states": r.distinct + ro.distinct, "transitions": r.generated + ro.generated, "traces_validated_against_impl": len(obs),
       "comparison_values_checked": sum(len(o["valok"]) for o in obs), "metric_law_vectors": nlaw,
       "evaluations": len(obs), "distinct_nontrivial": sum(1 for o in obs if not o["self"]),
-      "stateful_models": nstateful,
+      "stateful_models": nstateful, "int64_bias_models": sum(1 for m in meta if m["scenario"].get("big64")) // 2,
       "rule": "random 2-5 operator scenarios (1-2 signatures) quantized under random per-op modes, plus stateful models (RNN cell with a variable "
               "state tensor between dynamically quantised FULLY_CONNECTED ops, 3 test inputs); each compared with its quantized version and "
               "with itself, alternating mse / median_diff_ratio, 2 test inputs; non-trivial = quantized pair",
